@@ -125,11 +125,11 @@ func blockClass(cmd kit.Cmd) (blocking bool, wait time.Duration, forever bool) {
 }
 
 type finding struct {
-	Kind  string  `json:"kind"` // crash | no-reply | wedged | dead-to-others
-	Input kit.Cmd `json:"input"`
+	Kind  string    `json:"kind"` // crash | no-reply | wedged | dead-to-others
+	Input kit.Cmd   `json:"input"`
 	Prog  []kit.Cmd `json:"program,omitempty"`
-	Site  string  `json:"site"`
-	Msg   string  `json:"msg"`
+	Site  string    `json:"site"`
+	Msg   string    `json:"msg"`
 }
 
 func repoRoot() string {
@@ -600,6 +600,7 @@ func TestReplay(t *testing.T) {
 	defer stopServer()
 	kit.Replay[program](t, map[string]func(kit.RawCase) kit.Outcome{
 		"prog": kit.ReplaySub(execProgram),
+		"raw":  kit.ReplaySub(execRaw),
 		"input": kit.ReplaySub(func(f finding) kit.Outcome {
 			if r := tryInput(f.Input); r != nil {
 				return kit.Outcome{Fail: fmt.Sprintf("%s: %s %s", r.Kind, f.Input.String(), r.Site)}
